@@ -9,6 +9,9 @@ TRUSTED_BASE = [
     "PARTIAL: theorems give explicit bijections on the prover's randomness under which the published re-randomised signature elements of BBS (a_bar, b_bar) and PS (sigma_1', sigma_2') coincide for any two valid signatures of the issuer, and show what a reused nonce reveals; together with C07's lemmas the proof material is the same function of fresh randomness whichever credential it came from. Hiding of ElGamal ciphertexts / blinded accumulator witnesses (DDH / DLIN) and fresh OS randomness per presentation are assumed",
     "search: harness/src/ops_create.rs action link — P1, P2 from the same credentials, P3 from other credentials of the same issuers under the same schema; leaf equality at equal positions, cross-presentation nonce reuse (s1 - s2) == (c1 - c2)*m for every hidden claim, repetition of the publicly computable (resp_i - resp_j)/challenge for every pair of hidden claims and of (byte_resp_i - byte_resp_0)/challenge for the byte proofs of decryptable encryptions, pairing cross-ratio e(P_a,Q_b) == e(P_b,Q_a) for G1 leaves P and G2 leaves Q; a relation true for (P1,P2) and false for (P1,P3) is a link",
 ]
+TRUSTED_BASE = TRUSTED_BASE + [
+    "the accumulator proof parameters X, Y, Z, K are treated as elements with hidden, independent logs; tie to the code: they are recomputed by the harness as hash-to-curve images of four distinct inputs (op d_proof_params, repeats the prefix bytes and the domain separation tag of vb20) and must equal ProofParams::new",
+]
 ASSUMPTIONS = ["DDH / DLIN, OS randomness", "disclosed claims and deliberately derived pseudonyms are excluded by the property"]
 
 
@@ -52,6 +55,7 @@ def explore(ctx):
                              "text": f"two presentations of the same credential are linkable: {json.dumps(l)} ({s['suite']}); the relation does not hold against a presentation of another credential", "case": s})
         if len(samples) < 4:
             samples.append({"suite": s["suite"], "stmts": s["stmts"], "n_leaves": r["n_leaves"], "links": r["links"]})
+    failures += C.proof_params_pin()
     return {
         "evaluations": len(cs),
         "distinct_nontrivial": len(distinct),
